@@ -15,6 +15,7 @@
 package db
 
 import (
+	"github.com/dappledger/AnnChain/gemmill/utils/verifhook"
 	"fmt"
 	"path"
 
@@ -60,6 +61,7 @@ func (db *GoLevelDB) Get(key []byte) []byte {
 }
 
 func (db *GoLevelDB) Set(key []byte, value []byte) {
+	verifhook.Write("godb.Set", key)
 	err := db.db.Put(key, value, nil)
 	if err != nil {
 		gcmn.PanicCrisis(err)
@@ -67,6 +69,7 @@ func (db *GoLevelDB) Set(key []byte, value []byte) {
 }
 
 func (db *GoLevelDB) SetSync(key []byte, value []byte) {
+	verifhook.Write("godb.SetSync", key)
 	err := db.db.Put(key, value, &opt.WriteOptions{Sync: true})
 	if err != nil {
 		gcmn.PanicCrisis(err)
@@ -74,6 +77,7 @@ func (db *GoLevelDB) SetSync(key []byte, value []byte) {
 }
 
 func (db *GoLevelDB) Delete(key []byte) {
+	verifhook.Write("godb.Delete", key)
 	err := db.db.Delete(key, nil)
 	if err != nil {
 		gcmn.PanicCrisis(err)
@@ -81,6 +85,7 @@ func (db *GoLevelDB) Delete(key []byte) {
 }
 
 func (db *GoLevelDB) DeleteSync(key []byte) {
+	verifhook.Write("godb.DeleteSync", key)
 	err := db.db.Delete(key, &opt.WriteOptions{Sync: true})
 	if err != nil {
 		gcmn.PanicCrisis(err)
@@ -129,6 +134,9 @@ func (mBatch *goLevelDBBatch) Delete(key []byte) {
 }
 
 func (mBatch *goLevelDBBatch) Write() {
+	if verifhook.Enabled {
+		verifhook.Write("godb.batch", mBatch.batch.Dump())
+	}
 	err := mBatch.db.db.Write(mBatch.batch, nil)
 	if err != nil {
 		gcmn.PanicCrisis(err)
